@@ -458,4 +458,54 @@ example : ∃ sq : Rat → Rat, NormAt sq ⟨0, 0, 2⟩ ∧ NormAt sq ⟨0, 0, -
     ⟨by norm_num, by norm_num⟩⟩
 example : IsRightFrame ⟨1, 0, 0⟩ ⟨0, 1, 0⟩ ⟨0, 0, 1⟩ := frame_plain
 
+/-! ## The axis as an object with a history (class D) -/
+
+theorem VecObj.ofList_wf (l : List Rat) : (VecObj.ofList l).WF := rfl
+theorem VecObj.assign_wf (o : VecObj) (d : Nat) (e : Rat) : (o.assign d e).WF := by
+  simp [VecObj.assign, VecObj.WF]
+theorem VecObj.resize_wf (o : VecObj) (d : Nat) : (o.resize d).WF := by
+  simp only [VecObj.resize, VecObj.WF, List.length_append, List.length_take, List.length_replicate]
+  omega
+theorem VecObj.set_wf (o : VecObj) (h : o.WF) (i : Nat) (x : Rat) : (o.set i x).WF := by
+  unfold VecObj.set
+  split
+  · simpa [VecObj.WF] using h
+  · exact h
+theorem VecObj.copy_wf (o : VecObj) (h : o.WF) : o.copy.WF := h
+
+/-- under the class invariant the storage is exactly what the class exposes -/
+theorem VecObj.visible_eq_storage (o : VecObj) (h : o.WF) : o.visible = o.storage := by
+  unfold VecObj.visible; rw [← h]; exact List.take_length
+
+/-- **history independence of the norm**: `Norm()` (which runs over the storage) of two well-formed objects with
+    the same visible components is the same — whatever their construction / Resize / Assign / copy history.
+    The invariant is what makes it true (a shrinking `Resize` that keeps the storage breaks it, see the example). -/
+theorem norm_history_independent (sq : Rat → Rat) (o1 o2 : VecObj) (h1 : o1.WF) (h2 : o2.WF)
+    (hv : o1.visible = o2.visible) : o1.normCoded sq = o2.normCoded sq := by
+  unfold VecObj.normCoded
+  rw [← o1.visible_eq_storage h1, ← o2.visible_eq_storage h2, hv]
+
+/-- every history exercised by the harness yields a well-formed object … -/
+theorem axisHistory_wf (kind : Nat) (a b c : Rat) (ex : List Rat) : (axisHistory kind a b c ex).WF := by
+  unfold axisHistory
+  rcases kind with _|_|_|_|_|_|_|_|_ <;>
+    first
+    | exact VecObj.ofList_wf _
+    | exact VecObj.resize_wf _ _
+    | exact VecObj.copy_wf _ (VecObj.resize_wf _ _)
+    | exact VecObj.set_wf _ (VecObj.resize_wf _ _) _ _
+
+/-- … whose value is the three components `(a,b,c)`, independent of the history and of the extra entries: the
+    model's answer of `c16.rot3h` / `c16.sphaxh` depends on the three components only. -/
+theorem axisHistory_value (kind : Nat) (a b c : Rat) (ex : List Rat) :
+    (axisHistory kind a b c ex).axis3 = some ⟨a, b, c⟩ := by
+  unfold axisHistory
+  rcases kind with _|_|_|_|_|_|_|_|_ <;>
+    simp [VecObj.axis3, VecObj.visible, VecObj.ofList, VecObj.resize, VecObj.set, VecObj.assign, VecObj.copy]
+
+-- the invariant is needed: an object whose storage kept a hidden tail has the same visible components, another norm
+example : (VecObj.mk 3 [0, 0, 3, 4]).visible = (VecObj.ofList [0, 0, 3]).visible ∧
+    (VecObj.mk 3 [0, 0, 3, 4]).normCoded (sqApprox 64) = 5 ∧ (VecObj.ofList [0, 0, 3]).normCoded (sqApprox 64) = 3 := by
+  decide +kernel
+
 end Lp.C16
